@@ -18,7 +18,7 @@ func c10reset(c *core.Ctx) { c10resetAs(c, "C10.reset") }
 
 func c10resetAs(c *core.Ctx, R string) {
 	c.Rule(R, "for every struct taken from a sync.Pool (`pool.Get().(*T)`): the statement right after the Get is a `defer` that calls a method of the value and then Put (so both run on panic exits too), and that method assigns every field of T (field coverage): a field that survives in the pool leaks state of a previous, possibly failed, load into the next one")
-	c.Floor(R, 10)
+	c.Floor(R, 6)
 	nUsers := 0
 	for _, d := range c.P.FuncDecls() {
 		pk := d.Pkg
